@@ -328,6 +328,9 @@ func groupPolynomialsByEvaluationPoint(fs [][]fr.Element, powersOfR []fr.Element
 				verifGate(start, end)
 			}
 			workersAggregations <- groupedFs
+			if verifOn {
+				verifSent(start, end)
+			}
 		}(i*batchSize, (i+1)*batchSize)
 	}
 
